@@ -594,7 +594,11 @@ func (w *c08Worker) tokenStrings(alphabet []string, kinds []string, maxLen int, 
 		}
 		count := 0
 		for {
-			w.tokenString(alphabet, kinds, idx[:n], family, count%97 == 0)
+			// at the full length, strings without any operand token are left
+			// out (they are rejected for lack of an operand whatever the table)
+			if n < 4 || n < maxLen || hasOperandToken(kinds, idx[:n]) {
+				w.tokenString(alphabet, kinds, idx[:n], family, count%97 == 0)
+			}
 			count++
 			i := n - 1
 			for i >= 0 {
@@ -610,6 +614,18 @@ func (w *c08Worker) tokenStrings(alphabet []string, kinds []string, maxLen int, 
 			}
 		}
 	}
+}
+
+// hasOperandToken: the string contains a token that can be or begin an
+// operand (identifier, number, "[" or "{").
+func hasOperandToken(kinds []string, ix []int) bool {
+	for _, a := range ix {
+		switch kinds[a] {
+		case kSYM, kNUM, "[", "{":
+			return true
+		}
+	}
+	return false
 }
 
 func (w *c08Worker) tokenString(alphabet, kinds []string, ix []int, family string, viaLexer bool) {
@@ -697,12 +713,12 @@ func builtinDecls() []opDecl {
 func RunC08(cfg Config) *report.Report {
 	tokLen, builtinLen, nRandTrees := 4, 5, 60
 	if cfg.Thorough {
-		tokLen, builtinLen, nRandTrees = 5, 6, 400
+		tokLen, builtinLen, nRandTrees = 5, 5, 400
 	}
 	r := &report.Report{
 		Property: "C08",
 		Contract: "parser.NewParser(ops).Parse(lexer.NewLexer(ops).Lex(src)): same accept / reject and same tree (incl. group nodes) as an independent reference precedence parser over the same operator declarations; minimal, full and doubled parenthesisations of a tree all parse to that tree; a non-associative operator is never chained with itself without parentheses in any context; Position() (Idx, IdxEnd) of every node, operator token and field token equals the rune range of the text it was parsed from; rejection is an error raised by the parser (not a Go run-time fault)",
-		Space: fmt.Sprintf("operator tables on symbols + <> ~ mod, fixity in {prefix, postfix, infixl, infixr, infixn}, power in {5, 5.5, 6}: all 680 multisets of 3 declarations completed by a rotating 4th (no enumerated input mentions more than 3 operators), thorough tier also all 3060 multisets of 4 declarations; plus 36 tables where + is declared prefix and infix/postfix; per table: all operator trees of depth <= 2 and all caterpillar trees (at most one non-atomic operand per node) of depth 3, each rendered with minimal, full and doubled parentheses; all token strings of <= %d tokens over {a ( ) and the 4 operators}; every non-associative chain template (chain alone, parenthesised, followed / preceded by every other operator, inside ?:, call, list, member). Built-in table: all token strings of <= %d tokens over {a 1 ( ) [ ] { } , : . ? + - == || ! ^}; %d seeded random deeper trees per table", tokLen, builtinLen, nRandTrees),
+		Space: fmt.Sprintf("operator tables on symbols + <> ~ mod, fixity in {prefix, postfix, infixl, infixr, infixn}, power in {5, 5.5, 6}: all 680 multisets of 3 declarations completed by a rotating 4th (no exhaustively enumerated input of the quick tier mentions more than 3 operators), thorough tier also all 3060 multisets of 4 declarations (token strings <= 3 tokens there); plus 36 tables where + is declared prefix and infix/postfix; per table: all operator trees of depth <= 2 and all caterpillar trees (at most one non-atomic operand per node) of depth 3, each rendered with minimal, full and doubled parentheses; all token strings of <= %d tokens over {a ( ) and the 4 operators} (at the full length only those with at least one operand token); every non-associative chain template (chain alone, parenthesised, followed / preceded by every other operator, inside ?:, call, list, member). Built-in table: all token strings of <= %d tokens over {a ( ) [ ] { } , : . ? + == || ! ^} (thorough: also 1 and -; at the full length only those with at least one operand token a 1 [ {); %d seeded random deeper trees per table", tokLen, builtinLen, nRandTrees),
 		Bound: fmt.Sprintf("tree depth 3 (operator levels), token strings <= %d tokens (user tables) / <= %d tokens (built-in table), seed %d", tokLen, builtinLen, cfg.Seed),
 		Rule:  "distinct = (operator table, source text) by 64-bit FNV-1a hash; non-trivial = at least two tokens (token strings) or at least one operator (trees, counted once per tree by its minimal rendering)",
 	}
@@ -719,7 +735,7 @@ func RunC08(cfg Config) *report.Report {
 	}
 	if cfg.Thorough {
 		for _, t := range c08Tables(true) {
-			jobs = append(jobs, job{t, 4})
+			jobs = append(jobs, job{t, 3})
 		}
 	}
 	distinct := map[uint64]struct{}{}
@@ -751,8 +767,12 @@ func RunC08(cfg Config) *report.Report {
 
 	// built-in table with all syntactic forms
 	bt := c08Table{decls: builtinDecls()}
-	alphabet := []string{"a", "1", "(", ")", "[", "]", "{", "}", ",", ":", ".", "?", "+", "-", "==", "||", "!", "^"}
-	kinds := []string{kSYM, kNUM, "(", ")", "[", "]", "{", "}", ",", ":", ".", "?", "+", "-", "==", "||", "!", "^"}
+	alphabet := []string{"a", "(", ")", "[", "]", "{", "}", ",", ":", ".", "?", "+", "==", "||", "!", "^"}
+	kinds := []string{kSYM, "(", ")", "[", "]", "{", "}", ",", ":", ".", "?", "+", "==", "||", "!", "^"}
+	if cfg.Thorough {
+		alphabet = append(alphabet, "1", "-")
+		kinds = append(kinds, kNUM, "-")
+	}
 	A := len(alphabet)
 	mergeCounts(counts, parallel(r, distinct, A*A, func(i int, c *chunk) {
 		w := newC08Worker(bt, c)
@@ -770,7 +790,9 @@ func RunC08(cfg Config) *report.Report {
 			}
 			count := 0
 			for {
-				w.tokenString(alphabet, kinds, ix[:n], "built-in table token string", count%97 == 0)
+				if n < builtinLen || hasOperandToken(kinds, ix[:n]) {
+					w.tokenString(alphabet, kinds, ix[:n], "built-in table token string", count%97 == 0)
+				}
 				count++
 				k := n - 1
 				for k >= 2 {
@@ -794,9 +816,12 @@ func RunC08(cfg Config) *report.Report {
 	mergeCounts(counts, parallel(r, distinct, 1, func(i int, c *chunk) {
 		w := newC08Worker(bt, c)
 		w.tblStr = "built-in"
-		for _, s := range c08BuiltinSources {
+		for i, s := range c08BuiltinSources {
 			c.nontrivial2(w.tblStr, s)
-			w.source(s, "built-in table, hand-picked form")
+			ref, _, _ := w.source(s, "built-in table, hand-picked form")
+			if ref != nil && (i == 13 || i == 17) {
+				c.sample(fmt.Sprintf("operators=built-in input=%q tree with spans=%s", s, ref.sexpr(true)))
+			}
 		}
 	}))
 
